@@ -124,10 +124,13 @@ HNil  == [f |-> EmptyF, exp |-> 0, pend |-> {}]
 LNil  == [q |-> <<>>, exp |-> 0, pend |-> {}]
 SNil  == [m |-> {}, exp |-> 0, pend |-> {}]
 ZNil  == [sc |-> EmptyF, exp |-> 0, pend |-> {}]
+\* bitmaps (SETBIT / GETBIT / BITCOUNT / BITCLEAR and the b* extensions): a keyspace of their own, the set of
+\* offsets of the 1 bits.  has: the bitmap exists (SETBIT k off 0 on a missing key creates an all-zero one).
+BNil  == [has |-> FALSE, bits |-> {}, exp |-> 0, pend |-> {}]
 
 InitDB == [kv |-> [k \in Keys |-> KVNil], hs |-> [k \in Keys |-> HNil],
            ls |-> [k \in Keys |-> LNil], st |-> [k \in Keys |-> SNil],
-           zs |-> [k \in Keys |-> ZNil]]
+           zs |-> [k \in Keys |-> ZNil], bm |-> [k \in Keys |-> BNil]]
 
 Dead(r, t) == r.exp # 0 /\ r.exp <= t
 \* give an expiry / drop it
@@ -138,21 +141,24 @@ KVLive(r, t) == IF Dead(r, t) /\ Mut # "expired-visible" THEN KVGone(r) ELSE r
 KVSet(r, v)  == IF Mut = "overwrite-keeps-expiry" THEN [r EXCEPT !.has = TRUE, !.v = v]
                 ELSE [r EXCEPT !.has = TRUE, !.v = v, !.exp = 0]      \* whole-value overwrite
 
-\* collection types "h" "l" "s" "z"
+\* collection types "h" "l" "s" "z" (and "b", the bitmaps)
 Coll(db, ty, k) == CASE ty = "h" -> db.hs[k] [] ty = "l" -> db.ls[k]
-                     [] ty = "s" -> db.st[k] [] ty = "z" -> db.zs[k]
+                     [] ty = "s" -> db.st[k] [] ty = "z" -> db.zs[k] [] ty = "b" -> db.bm[k]
 PutC(db, ty, k, x) == CASE ty = "h" -> [db EXCEPT !.hs[k] = x] [] ty = "l" -> [db EXCEPT !.ls[k] = x]
                         [] ty = "s" -> [db EXCEPT !.st[k] = x] [] ty = "z" -> [db EXCEPT !.zs[k] = x]
+                        [] ty = "b" -> [db EXCEPT !.bm[k] = x]
 CEmpty(ty, r) == CASE ty = "h" -> DOMAIN r.f = {} [] ty = "l" -> r.q = <<>>
-                   [] ty = "s" -> r.m = {}        [] ty = "z" -> DOMAIN r.sc = {}
+                   [] ty = "s" -> r.m = {}        [] ty = "z" -> DOMAIN r.sc = {} [] ty = "b" -> ~r.has
 CGone(ty, r) == CASE ty = "h" -> [r EXCEPT !.f = EmptyF, !.exp = 0] [] ty = "l" -> [r EXCEPT !.q = <<>>, !.exp = 0]
                   [] ty = "s" -> [r EXCEPT !.m = {}, !.exp = 0]     [] ty = "z" -> [r EXCEPT !.sc = EmptyF, !.exp = 0]
+                  [] ty = "b" -> [r EXCEPT !.has = FALSE, !.bits = {}, !.exp = 0]
 CLive(ty, r, t) == IF ~Dead(r, t) THEN r
                    ELSE IF Mut = "recreate-keeps-members" THEN [r EXCEPT !.exp = 0] ELSE CGone(ty, r)
 \* a collection that lost its last element does not exist any more
 CNorm(ty, r) == IF CEmpty(ty, r) THEN CGone(ty, r) ELSE r
 CSize(ty, r) == CASE ty = "h" -> Cardinality(DOMAIN r.f) [] ty = "l" -> Len(r.q)
                   [] ty = "s" -> Cardinality(r.m)       [] ty = "z" -> Cardinality(DOMAIN r.sc)
+                  [] ty = "b" -> Cardinality(r.bits)
 
 \* Redis index range on a sequence of length n (0-based, negative from the end):
 \* the 1-based inclusive bounds, <<1, 0>> when empty
@@ -440,6 +446,49 @@ DoZSet(db, c, k, a, t, now) ==
        [] c = "zttl"      -> DoCollExt(db, "z", "ttl", k, a, t, now)
        [] c = "zpersist"  -> DoCollExt(db, "z", "persist", k, a, t, now)
 
+(* Bitmaps.  Offsets: 0 .. 2^32-2; the codes BMAXOFF / BTOOBIG stand for 2^32-2 (the largest) and 2^32-1   *)
+(* (refused).  Legacy layout: a key that has no bitmap but holds a string is read as the bits of that string *)
+(* (as in Redis, where bitmaps are strings), and the first SETBIT adopts those bits into a new bitmap and    *)
+(* removes the string.  BITCOUNT ranges are byte ranges; only non-negative bounds and the end -1 are in the   *)
+(* model (negative bounds address the allocated length, which depends on the store's padding policy).       *)
+BMAXOFF == 2000000000   BTOOBIG == 2000000001
+ByteIx(off) == IF off >= BMAXOFF THEN 500000000 ELSE off \div 8
+ByteOfSym(x) == IF x \in 0..9 THEN 48 + x ELSE IF x = MINUS THEN 45 ELSE 0       \* ASCII; symbol 10 is pool dependent
+Pow2(n) == CASE n = 0 -> 1 [] n = 1 -> 2 [] n = 2 -> 4 [] n = 3 -> 8 [] n = 4 -> 16 [] n = 5 -> 32 [] n = 6 -> 64 [] n = 7 -> 128
+BitsOfStr(v) == {o \in 0..(8 * Len(v) - 1) : (ByteOfSym(v[(o \div 8) + 1]) \div Pow2(7 - (o % 8))) % 2 = 1}
+StrHasPoolSym(v) == \E i \in 1..Len(v) : v[i] = 10
+\* the bits a reader / writer at tick t sees under key k: <<exists, bits, from the legacy string>>
+BitView(db, k, t) ==
+  LET b == CLive("b", db.bm[k], t)
+      s == KVLive(db.kv[k], t)
+  IN IF b.has THEN <<TRUE, b.bits, FALSE>> ELSE IF s.has THEN <<TRUE, BitsOfStr(s.v), TRUE>> ELSE <<FALSE, {}, FALSE>>
+DoBit(db, c, k, a, t, now) ==
+  LET raw == db.bm[k]
+      lv  == CLive("b", raw, t)
+      vw  == BitView(db, k, t)
+      vr  == BitView(db, k, now)
+      InBytes(o, s, e) == ByteIx(o) >= s /\ (e = -1 \/ ByteIx(o) <= e)
+  IN CASE c = "getbit"    -> IF a[1] < 0 \/ a[1] = BTOOBIG THEN Res(db, ROut)
+                             ELSE IF vr[3] /\ StrHasPoolSym(KVLive(db.kv[k], now).v) THEN Res(db, ROut)
+                             ELSE Res(db, RInt(IF a[1] \in vr[2] THEN 1 ELSE 0))
+       [] c = "bitcount"  -> IF vr[3] /\ StrHasPoolSym(KVLive(db.kv[k], now).v) THEN Res(db, ROut)
+                             ELSE Res(db, RInt(Cardinality(vr[2])))
+       [] c = "bitcount2" -> IF a[1] < 0 \/ a[2] < -1 THEN Res(db, ROut)
+                             ELSE IF vr[3] /\ StrHasPoolSym(KVLive(db.kv[k], now).v) THEN Res(db, ROut)
+                             ELSE Res(db, RInt(Cardinality({o \in vr[2] : InBytes(o, a[1], a[2])})))
+       [] c = "setbit"    -> \* a = <<offset, 0 | 1>>
+            IF a[1] < 0 \/ a[1] = BTOOBIG \/ a[2] \notin {0, 1} THEN Res(db, RErr)
+            ELSE IF vw[3] /\ StrHasPoolSym(KVLive(db.kv[k], t).v) THEN Res(db, ROut)
+            ELSE LET nb == IF a[2] = 1 THEN vw[2] \cup {a[1]} ELSE vw[2] \ {a[1]}
+                     d1 == PutC(db, "b", k, [lv EXCEPT !.has = TRUE, !.bits = nb])
+                 IN Res(IF vw[3] THEN PutKV(d1, k, KVGone(db.kv[k])) ELSE d1, RInt(IF a[1] \in vw[2] THEN 1 ELSE 0))
+       [] c = "bitclear"  -> DoCollExt(db, "b", "clear", k, a, t, now)
+       [] c = "bkeyexist" -> Res(db, RInt(IF vr[1] THEN 1 ELSE 0))
+       [] c = "bexpire"   -> DoCollExt(db, "b", "expire", k, a, t, now)
+       [] c = "bttl"      -> DoCollExt(db, "b", "ttl", k, a, t, now)
+       [] c = "bpersist"  -> DoCollExt(db, "b", "persist", k, a, t, now)
+
+BCmds == {"getbit", "bitcount", "bitcount2", "setbit", "bitclear", "bkeyexist", "bexpire", "bttl", "bpersist"}
 KVCmds == {"get", "strlen", "exists", "exists2", "mget", "getrange", "ttl", "set", "setx", "setex", "setnx",
            "getset", "mset", "incr", "decr", "incrby", "decrby", "append", "setrange", "del", "del2",
            "expire", "persist"}
@@ -457,9 +506,10 @@ ReadCmds == {"get", "strlen", "exists", "exists2", "mget", "getrange", "ttl",
              "llen", "lindex", "lrange", "lkeyexist", "lttl",
              "scard", "sismember", "smembers", "srandmember", "skeyexist", "sttl",
              "zcard", "zscore", "zrank", "zrevrank", "zrange", "zrevrange", "zrangebyscore", "zrevrangebyscore",
-             "zcount", "zrangebylex", "zlexcount", "zkeyexist", "zttl"}
+             "zcount", "zrangebylex", "zlexcount", "zkeyexist", "zttl",
+             "getbit", "bitcount", "bitcount2", "bkeyexist", "bttl"}
 ExpiryCmds == {"setx", "setex", "expire", "persist", "ttl", "hexpire", "httl", "hpersist", "lexpire", "lttl",
-               "lpersist", "sexpire", "sttl", "spersist", "zexpire", "zttl", "zpersist"}
+               "lpersist", "sexpire", "sttl", "spersist", "zexpire", "zttl", "zpersist", "bexpire", "bttl", "bpersist"}
 
 \* Sub-key id OverLong stands for a field/member name longer than the store accepts (10240
 \* bytes).  A write command that names it - in any argument position, also after valid ones -
@@ -483,6 +533,7 @@ Do(db, c, t, now) ==
     [] c.c \in LCmds  -> DoList(db, c.c, c.k, c.a, t, now)
     [] c.c \in SCmds  -> DoSet(db, c.c, c.k, c.a, t, now)
     [] c.c \in ZCmds  -> DoZSet(db, c.c, c.k, c.a, t, now)
+    [] c.c \in BCmds  -> DoBit(db, c.c, c.k, c.a, t, now)
 
 Reply(db, c, t, now)  == Do(db, c, t, now).r
 Effect(db, c, t, now) == Do(db, c, t, now).db
@@ -491,7 +542,7 @@ Cmd(name, k, a) == [c |-> name, k |-> k, a |-> a]
 \* the type letter of a command and the keys it names (for KeysIndependent and for the
 \* classification of a failing trace line)
 TyOf(c) == IF c.c \in KVCmds THEN "k" ELSE IF c.c \in HCmds THEN "h" ELSE IF c.c \in LCmds THEN "l"
-           ELSE IF c.c \in SCmds THEN "s" ELSE "z"
+           ELSE IF c.c \in SCmds THEN "s" ELSE IF c.c \in BCmds THEN "b" ELSE "z"
 KeysOf(c) == CASE c.c \in {"exists2", "mget", "del2"} -> {c.k, c.a[1]}
                [] c.c = "mset" -> {c.k, c.a[2]}
                [] OTHER -> {c.k}
@@ -508,7 +559,7 @@ ExpiryInvolved(db, c, t, now) ==
 (* given expiry has not passed is the violation (commission); not removing     *)
 (* something due is accepted (the documentation promises no timeliness).       *)
 Due(r, now) == \E e \in r.pend : e <= now
-TyLetters == {"k", "h", "l", "s", "z"}
+TyLetters == {"k", "h", "l", "s", "z", "b"}
 ScanNotEarly(db, gone, now) == \A g \in gone : Due(RecOf(db, g[1], g[2]), now)
 ScanRec(ty, r, isGone, now) ==
   LET cleared == IF ~isGone THEN r ELSE IF ty = "k" THEN KVGone(r) ELSE CGone(ty, r)
@@ -518,7 +569,8 @@ ScanEffect(db, gone, now) ==
    hs |-> [k \in Keys |-> ScanRec("h", db.hs[k], <<"h", k>> \in gone, now)],
    ls |-> [k \in Keys |-> ScanRec("l", db.ls[k], <<"l", k>> \in gone, now)],
    st |-> [k \in Keys |-> ScanRec("s", db.st[k], <<"s", k>> \in gone, now)],
-   zs |-> [k \in Keys |-> ScanRec("z", db.zs[k], <<"z", k>> \in gone, now)]]
+   zs |-> [k \in Keys |-> ScanRec("z", db.zs[k], <<"z", k>> \in gone, now)],
+   bm |-> [k \in Keys |-> ScanRec("b", db.bm[k], <<"b", k>> \in gone, now)]]
 \* what a complete scan removes
 ScanDue(db, now) == {g \in TyLetters \X Keys : Due(RecOf(db, g[1], g[2]), now) /\
                         (IF g[1] = "k" THEN db.kv[g[2]].has ELSE ~CEmpty(g[1], Coll(db, g[1], g[2])))}
